@@ -33,7 +33,7 @@ for mp in sorted(glob.glob(os.path.join(VERIF, "seeded", "*", "meta.json"))):
             early = "missed by " + ", ".join(miss) + " at " + h.get("verif_commit", "?")
     inrepo = m.get("confirmed_in_repo")
     rows.append("| %s | %s | %s | %s | %s | %s |" % (
-        m["id"], ", ".join(os.path.basename(f) for f in files), m.get("summary", ""), caught + (" (in /repo: exit %s)" % inrepo[0]["exit"] if inrepo else ""),
+        m["id"], ", ".join(os.path.basename(f) for f in files), (m.get("breaks", "") + " **Needs:** " + m.get("needs", "")).replace("|", "/"), caught + (" (in /repo: exit %s)" % inrepo[0]["exit"] if inrepo else ""),
         (firsts[0] if firsts else "").replace("|", "/"), early))
 print("| id | files changed | what it breaks / what it needs | caught by | first report | history |")
 print("|---|---|---|---|---|---|")
